@@ -3,8 +3,9 @@ from contracts import roms_forcing as F
 from contracts import timekeeper as K
 
 from contracts import roms_init as I
+from contracts import roms_steps as RS
 
-UNITS = [F.ForcingInit(), F.Update("bracket"), F.Update("start"), F.Velocity(), K.TKTime2Step(), F.ForcingStepsCoverage()] + list(I.FORCING_IO_UNITS) + list(I.SCAN_UNITS) + list(I.SCAN_READ_UNITS)
+UNITS = [F.ForcingInit(), F.Update("bracket"), F.Update("start"), F.Velocity(), K.TKTime2Step(), F.ForcingStepsCoverage()] + list(I.FORCING_IO_UNITS) + list(I.SCAN_UNITS) + list(I.SCAN_READ_UNITS) + list(RS.STEP_TABLE_UNITS)
 LEMMAS = []
 NATIVE = [dict(name="frame layouts x file partitions x start offsets x direction on real Grid/TimeKeeper/Forcing", harness="forcing_layouts_bounded", kind="bounded")]
 LEVEL = "proof"
